@@ -78,6 +78,7 @@ fn main() {
         "ls-ignore" => lsx::ls_ignore(&a),
         "ls-stats" => lsx::ls_stats(&a),
         "ls-stats-paths" => lsx::ls_stats_paths(&a),
+        "ls-userdict" => lsx::ls_userdict(&a),
         other => {
             eprintln!("unknown subcommand {other}");
             std::process::exit(2);
